@@ -163,8 +163,10 @@ def _fresh(srv, item):
     regset, fi = item
     regs = [REGS[r][0] for r in REG_ORDER if r in regset]
     ld = ('L', _G['files'][fi][1])
-    h1, _ = srv.expand([ROOT] + regs + [ld], [])
-    h2, _ = srv.expand([ROOT, ld] + regs, [])
+    h1, _ = srv.expand([ROOT] + regs + [ld], [], hist_may_die=True)
+    h2, _ = srv.expand([ROOT, ld] + regs, [], hist_may_die=True)
+    if h1.get('died') or h2.get('died'):
+        return {'key': (tuple(sorted(regset)), fi), 'before': 'died', 'after': 'died', 'rcs': ([1], [1]), 'died': h1.get('died') or h2.get('died')}
     return {'key': (tuple(sorted(regset)), fi), 'before': dkey(h1['dump']), 'after': dkey(h2['dump']), 'rcs': (h1['rcs'], h2['rcs'])}
 
 
@@ -178,7 +180,11 @@ def _expand(srv, st):
         cands.append(('D', files[fi][1])); labels.append(('load', fi))
     for r in enabled_regs(regset):
         cands.append(REGS[r][0]); labels.append(('reg', r))
-    h, res = srv.expand(hist_events(hist), cands)
+    h, res = srv.expand(hist_events(hist), cands, hist_may_die=True)
+    if h.get('died'):
+        # replaying a history of registrations and loads of valid files killed or hung the process
+        return {'sid': sid, 'hkey': None, 'succ': [], 'n': 0, 'rejected': 0,
+                'viol': [(('replay', 0), [('C15.memory' if 'Sanitizer' in h.get('stderr', '') else 'C15.died', 'replaying this history of valid loads ended with %s: %s' % (h['died'], (h.get('stderr') or '').strip().splitlines()[:1]))])]}
     before = flatten(h['dump'])
     out = {'sid': sid, 'hkey': dkey(h['dump']), 'succ': [], 'viol': [], 'n': len(cands), 'rejected': 0}
     for lab, r in zip(labels, res):
@@ -200,7 +206,9 @@ def _expand(srv, st):
                 V.append(('C15.reference', '; '.join(d[:4])))
             # O2
             fr = _G['fresh'].get((tuple(sorted(nreg)), nlast))
-            if fr:
+            if fr and fr.get('died'):
+                V.append(('C15.died', 'a fresh process doing these registrations and this one load ended with %s' % fr['died']))
+            elif fr:
                 if fr['before'] != fr['after']:
                     V.append(('C15.order', 'registering before vs. after loading the same file gives different trees: ' + '; '.join(diff_dumps(fr['before'], fr['after'])[:3])))
                 elif dk != fr['before']:
@@ -289,12 +297,12 @@ def main(tier):
                 if 'harness_error' in out:
                     raise common.HarnessError(out['harness_error'])
                 sid = out['sid']
-                if sid == 0:
+                if sid == 0 and out['hkey'] is not None:
                     seen[out['hkey']] = 0
                 transitions += out['n']; rejected += out['rejected']
                 for lab, V in out['viol']:
                     for cls, text in V:
-                        h = hist_of[sid] + [lab]
+                        h = hist_of[sid] + ([lab] if lab[0] != 'replay' else [])
                         run.violation(cls, '%s  (history: %s)' % (text, ' | '.join(ev_str(e) for e in h)),
                                       {'engine': 'conf', 'events': [[k, (v if isinstance(v, str) else v.decode('latin-1'))] for k, v in hist_events(h)],
                                        'symbolic': [ev_str(e) for e in h], 'clause': cls},
